@@ -38,11 +38,14 @@ def bytesHex (bs : List Nat) : Str := bs.flatMap byteHex
 /-- `NormalizeHexAddress` up to checksum casing: "0x" and 40 lower-case digits of the low 20 bytes. -/
 def normalizeHex (s : Str) : Str := '0' :: 'x' :: bytesHex (fixBytes 20 (fromHex s))
 
+/-- `strings.TrimPrefix(s, "0x")` -/
+def stripLower0x : Str → Str
+  | '0' :: 'x' :: r => r
+  | s => s
+
 /-- `HexAddressString.Bytes()`: only a lower-case "0x" is trimmed. -/
 def hexAddrBytes (s : Str) : List Nat :=
-  let t := match s with
-    | '0' :: 'x' :: r => r
-    | _ => s
+  let t := stripLower0x s
   let t := if t.length % 2 = 1 then '0' :: t else t
   fixBytes 20 (decodePairs t)
 
